@@ -1009,9 +1009,126 @@ def lower(fn: ast.FunctionDef, tuples: bool = True, ifexp: bool = True) -> ast.F
     return fn
 
 
+class _Canon(ast.NodeTransformer):
+    """Expression / statement spellings with one meaning get one form:
+    * ``x: T = v`` inside a function is ``x = v`` (local annotations are not evaluated); a bare ``x: T`` disappears
+    * ``not (a is b)`` -> ``a is not b``; ``not (a in b)`` -> ``a not in b`` (and the other way round for double negation)
+    * in an identity comparison a constant operand (None / True / False / ...) stands on the right
+    """
+
+    def visit_AnnAssign(self, node: ast.AnnAssign) -> ast.AST:
+        self.generic_visit(node)
+        if node.value is None:
+            return ast.copy_location(ast.Pass(), node)
+        return ast.copy_location(ast.Assign(targets=[node.target], value=node.value), node)
+
+    def visit_UnaryOp(self, node: ast.UnaryOp) -> ast.AST:
+        self.generic_visit(node)
+        if isinstance(node.op, ast.Not) and isinstance(node.operand, ast.Compare) and len(node.operand.ops) == 1:
+            flip = {ast.Is: ast.IsNot, ast.IsNot: ast.Is, ast.In: ast.NotIn, ast.NotIn: ast.In}
+            op = node.operand.ops[0]
+            if type(op) in flip:
+                return ast.copy_location(ast.Compare(left=node.operand.left, ops=[flip[type(op)]()], comparators=node.operand.comparators), node)
+        return node
+
+    def visit_Compare(self, node: ast.Compare) -> ast.AST:
+        self.generic_visit(node)
+        if len(node.ops) == 1 and isinstance(node.ops[0], (ast.Is, ast.IsNot)) and isinstance(node.left, ast.Constant) \
+                and not isinstance(node.comparators[0], ast.Constant) and not any(isinstance(x, ast.NamedExpr) for x in ast.walk(node)):
+            return ast.copy_location(ast.Compare(left=node.comparators[0], ops=node.ops, comparators=[node.left]), node)
+        return node
+
+    def visit_ClassDef(self, node: ast.ClassDef) -> ast.AST:
+        return node  # class bodies keep their annotations (dataclass fields)
+
+
+def _flatten_else(fn: ast.FunctionDef) -> None:
+    """``if c: ...; return/raise/continue/break`` ``else: rest``  ->  guard clause followed by ``rest`` (same block)."""
+
+    def leaves(body: list[ast.stmt]) -> bool:
+        if not body:
+            return False
+        last = body[-1]
+        if isinstance(last, (ast.Return, ast.Raise, ast.Continue, ast.Break)):
+            return True
+        if isinstance(last, ast.If) and last.orelse:
+            return leaves(last.body) and leaves(last.orelse)
+        return False
+
+    def rewrite(block: list[ast.stmt]) -> None:
+        i = 0
+        while i < len(block):
+            st = block[i]
+            if isinstance(st, ast.If) and st.orelse and leaves(st.body) and not any(isinstance(x, (ast.FunctionDef, ast.ClassDef)) for x in st.orelse):
+                rest = st.orelse
+                st.orelse = []
+                block[i + 1:i + 1] = rest
+            for sub in _blocks(st):
+                rewrite(sub)
+            i += 1
+
+    rewrite(fn.body)
+
+
+def _inline_adjacent(fn: ast.FunctionDef) -> None:
+    """``t = <any expression>`` immediately followed by a statement whose *first evaluated* expression is ``t`` (its only
+    use): the definition moves into the use.  Nothing is evaluated in between, so this holds for impure values too."""
+
+    def lead(e: ast.expr | None) -> ast.expr | None:
+        while e is not None:
+            if isinstance(e, ast.Name):
+                return e
+            if isinstance(e, ast.Compare):
+                e = e.left
+            elif isinstance(e, ast.UnaryOp):
+                e = e.operand
+            elif isinstance(e, ast.BoolOp):
+                e = e.values[0]
+            elif isinstance(e, ast.Attribute):
+                e = e.value
+            elif isinstance(e, ast.Subscript):
+                e = e.value
+            else:
+                return None
+        return None
+
+    counts = _stores(fn)
+
+    def rewrite(block: list[ast.stmt]) -> None:
+        i = 0
+        while i + 1 < len(block):
+            st, nxt = block[i], block[i + 1]
+            done = False
+            if isinstance(st, ast.Assign) and len(st.targets) == 1 and isinstance(st.targets[0], ast.Name) and counts.get(st.targets[0].id) == 1:
+                nm = st.targets[0].id
+                uses = [n for n in ast.walk(fn) if isinstance(n, ast.Name) and n.id == nm and isinstance(n.ctx, ast.Load)]
+                head = nxt.test if isinstance(nxt, ast.If) else (nxt.value if isinstance(nxt, (ast.Return, ast.Expr, ast.Assign)) else None)
+                ld = lead(head)
+                if len(uses) == 1 and ld is uses[0] and not any(isinstance(x, (ast.Yield, ast.YieldFrom, ast.Await, ast.NamedExpr)) for x in ast.walk(st.value)) \
+                        and not (_is_container_ctor(st.value) and _is_empty_container(st.value)):
+                    new_head = _replace_node(head, ld, st.value)
+                    if isinstance(nxt, ast.If):
+                        nxt.test = new_head
+                    else:
+                        nxt.value = new_head  # type: ignore[union-attr]
+                    del block[i]
+                    done = True
+            if not done:
+                for sub in _blocks(st):
+                    rewrite(sub)
+                i += 1
+        if block:
+            for sub in _blocks(block[-1]):
+                rewrite(sub)
+
+    rewrite(fn.body)
+
+
 def normalize(fn: ast.FunctionDef, cls: ast.ClassDef | None, qual: str, inliner: HelperInliner | None, keep: set[str] | None = None) -> ast.FunctionDef:
     new = copy.deepcopy(fn)
     new = _StripCasts().visit(new)
+    body = [_Canon().visit(st) for st in new.body]
+    new.body = [st for st in body if not isinstance(st, ast.Pass)] or [ast.copy_location(ast.Pass(), new)]
     if inliner is not None:
         new = inliner.inline(new, cls, qual)
         # nested helpers of later origin that were inlined at every use are dropped
@@ -1022,6 +1139,8 @@ def normalize(fn: ast.FunctionDef, cls: ast.ClassDef | None, qual: str, inliner:
                     new.body.remove(st)
     new = lower(new, tuples=True, ifexp=False)
     new = inline_locals(new, keep)
+    _inline_adjacent(new)
     new = lower(new, tuples=True, ifexp=True)
+    _flatten_else(new)
     ast.fix_missing_locations(new)
     return new
